@@ -4,6 +4,12 @@
 
 package format
 
+import (
+	"github.com/vektah/gqlparser/v2/ast"
+)
+
+var _ ast.Field
+
 //@ nonnil-field BufferedFormatter.Formatter
 
 //@ func NewFormatter
@@ -61,8 +67,146 @@ package format
 //@ end
 
 //@ func (*BufferedFormatter).FormatSelectionSet
-//@ props C06
+//@ props C06 C07
 //@ requires f != nil && f.Formatter != nil
+//@ assumes[schema] f.Formatter.schema != nil ==> forallT(k, string, has(f.Formatter.schema.Types, k) ==> f.Formatter.schema.Types[k] != nil)
 //@ ensures[op] f.Formatter == old(f.Formatter) && f.Formatter.operationType == old(f.Formatter.operationType)
 //@ modifies-assumed fresh, all(Formatter.writer), all(Formatter.indentSize), all(Formatter.padNext), all(Formatter.lineHead)
+//@ end
+
+// ---- C07: the formatter renders the sub-queries of every plan inside the per-operation closure: none of its
+// instructions may panic for a validated selection set (safety-only contracts) ----
+//@ assume-nonnil-elems *ast.Directive
+//@ assume-nonnil-elems *ast.Argument
+//@ assume-nonnil-elems *ast.ChildValue
+//@ assume-nonnil-elems *ast.Field
+//@ assume-nonnil-elems *ast.ArgumentDefinition
+//@ assume-nonnil-elems *ast.FieldDefinition
+//@ assume-nonnil-field ast.Argument.Value
+//@ assume-nonnil-field ast.ChildValue.Value
+//@ assume-nonnil-boxed *ast.Field
+//@ assume-nonnil-boxed *ast.InlineFragment
+//@ assume-nonnil-boxed *ast.FragmentSpread
+//@ assume-nonnil-field ast.Value.ExpectedType
+//@ assume-nonnil-field ast.ArgumentDefinition.Type
+//@ assume-nonnil-field ast.FieldDefinition.Type
+//@ define wfF(f *Formatter) bool = f != nil && f.writer != nil && (f.schema != nil ==> forallT(k, string, has(f.schema.Types, k) ==> f.schema.Types[k] != nil))
+
+//@ func (*Formatter).WithWriter
+//@ props C07
+//@ requires f != nil
+//@ ensures[self] result == f && f.writer == w && f.schema == old(f.schema)
+//@ modifies f.writer
+//@ end
+
+//@ func (*Formatter).write
+//@ props C07
+//@ requires wfF(f)
+//@ end
+
+//@ func (*Formatter).writeIndent
+//@ props C07
+//@ requires wfF(f)
+//@ ensures[self] result == f && f.writer == old(f.writer) && f.schema == old(f.schema)
+//@ end
+
+//@ func (*Formatter).writeNewLine
+//@ props C07
+//@ requires wfF(f)
+//@ ensures[self] result == f && f.writer == old(f.writer) && f.schema == old(f.schema)
+//@ end
+
+//@ func (*Formatter).writeWord
+//@ props C07
+//@ requires wfF(f)
+//@ ensures[self] result == f && f.writer == old(f.writer) && f.schema == old(f.schema)
+//@ end
+
+//@ func (*Formatter).writeString
+//@ props C07
+//@ requires wfF(f)
+//@ ensures[self] result == f && f.writer == old(f.writer) && f.schema == old(f.schema)
+//@ end
+
+//@ func (*Formatter).incrementIndent
+//@ props C07
+//@ requires wfF(f)
+//@ end
+
+//@ func (*Formatter).decrementIndent
+//@ props C07
+//@ requires wfF(f)
+//@ end
+
+//@ func (*Formatter).noPadding
+//@ props C07
+//@ requires wfF(f)
+//@ ensures[self] result == f && f.writer == old(f.writer) && f.schema == old(f.schema)
+//@ end
+
+//@ func (*Formatter).needPadding
+//@ props C07
+//@ requires wfF(f)
+//@ ensures[self] result == f && f.writer == old(f.writer) && f.schema == old(f.schema)
+//@ end
+
+//@ func (*Formatter).formatDirectiveList
+//@ props C07
+//@ requires wfF(f)
+//@ end
+
+//@ func (*Formatter).formatDirective
+//@ props C07
+//@ requires wfF(f) && dir != nil
+//@ end
+
+//@ func (*Formatter).formatArgumentList
+//@ props C07
+//@ requires wfF(f)
+//@ end
+
+//@ func (*Formatter).formatArgument
+//@ props C07
+//@ requires wfF(f) && arg != nil
+//@ end
+
+//@ func (*Formatter).walkArgumentList
+//@ props C07
+//@ requires wfF(f)
+//@ end
+
+//@ func (*Formatter).walkChildrenArgumentList
+//@ props C07
+//@ requires wfF(f) && typeDef != nil
+//@ end
+
+//@ func (*Formatter).formatSelectionSet
+//@ props C07
+//@ requires wfF(f)
+//@ end
+
+//@ func (*Formatter).formatSelection
+//@ props C07
+//@ requires wfF(f)
+//@ assumes[closed] is(selection, *ast.Field) || is(selection, *ast.InlineFragment) || is(selection, *ast.FragmentSpread)
+//@ end
+
+//@ func (*Formatter).formatField
+//@ props C07
+//@ requires wfF(f) && field != nil
+//@ end
+
+//@ func (*Formatter).formatFragmentSpread
+//@ props C07
+//@ requires wfF(f) && spread != nil
+//@ end
+
+//@ func (*Formatter).formatInlineFragment
+//@ props C07
+//@ requires wfF(f) && inline != nil
+//@ end
+
+//@ func (*Formatter).FormatSelectionSet
+//@ props C07
+//@ requires wfF(f)
 //@ end
